@@ -27,7 +27,7 @@ man = {
     "setup_cmd": "sh tools/setup.sh",
     "hooks": {
         "guard": "cargo feature `verif_hooks` (plonky2, starky)",
-        "enable": "the harness crate depends on /repo/plonky2 and /repo/starky with features=[\"verif_hooks\"] once hooks exist; at present no hook is needed and /repo is unmodified",
+        "enable": "the harness crate depends on /repo/plonky2 and /repo/starky with features=[\"verif_hooks\"] once hooks exist; at present no hook is needed: everything the harness uses is public API, so there is no hook commit in /repo (its only commits beyond the pinned one are the unguarded `fix:` repairs listed in known_findings.jsonl)",
         "baseline_off_cmd": "cd /repo && cargo test --workspace --no-fail-fast --offline",
         "source_commits": [],
         "add_only": True,
@@ -37,7 +37,7 @@ man = {
                  "kind_free_text": "Lean 4 library P2 (model + theorems, kernel-checked, axiom audit), translator tools/extract.py regenerating P2/Gen from /repo, Rust harness p2h driving the real code, Lean driver p2driver answering the same request lines"}],
     "checks": checks,
     "not_applicable": na,
-    "notes": "See DESIGN.md. Every check rebuilds the harness from /repo's working tree and re-runs the translator.",
+    "notes": "See DESIGN.md (section 10 = current state). Every check rebuilds the harness from /repo's working tree and re-runs the translator. Genuine unrepaired defects are listed in known_findings.jsonl (status known) and printed as KNOWN-FINDING lines; repaired ones (status fixed, one fix: commit each) suppress nothing. seeded/ holds the seeded changes used to test the checks (tools/seediso.sh runs a check against one without touching /repo).",
 }
 json.dump(man, open(os.path.join(ROOT, "MANIFEST.json"), "w"), indent=1)
 print("MANIFEST.json:", len(checks), "checks,", len(na), "not claimed")
